@@ -22,16 +22,19 @@ structure RawTp where
   trig : Trig
   /-- `build_trigger` can interpret it (known stage) -/
   interpretable : Bool
-  /-- its metric definitions convert (`MetricType.Name` knows the type) -/
+  /-- its metric definitions convert (`MetricType.Name` knows the type); one that does not is skipped by
+      `convert_response` (its `try … except Exception: continue`), like one `build_trigger` cannot interpret -/
   convertible : Bool
 deriving Repr, DecidableEq
 
 /-- `convert_response(response.response)`; `none` = it raised (an `Exception`) -/
 def convertResponse (tps : List RawTp) : Option (List Trig) :=
-  if tps.any (fun r => !r.convertible) then none
-  else if skipsUninterpretable then some ((tps.filter (·.interpretable)).map (·.trig))
-  else if tps.all (·.interpretable) then some (tps.map (·.trig))
-  else none
+  if !skipsUnconvertible && tps.any (fun r => !r.convertible) then none
+  else
+    let ok := tps.filter (·.convertible)
+    if skipsUninterpretable then some ((ok.filter (·.interpretable)).map (·.trig))
+    else if ok.all (·.interpretable) then some (ok.map (·.trig))
+    else none
 
 /-- a task inside the locked part of `update_listeners`: its locals, and the listener's argument once evaluated -/
 structure Hold where
@@ -124,6 +127,11 @@ def step (locked : Bool) (s : St) : Op → St
                       (listenerArg s.svc (listenerRead s.svc (listenerPre s.svc (Locals.init t.captured)))) }
   | .timerStart text => { s with timerAlive := s.timerAlive && (intervalCoerced || !text) }
 
+/-- the ops of the background tasks (no poll, no register / unregister) -/
+def Op.isTask : Op → Bool
+  | .taskStart _ | .taskRead _ | .taskCall _ | .taskInstall _ | .applyTask _ => true
+  | _ => false
+
 def runFrom (locked : Bool) (s : St) (ops : List Op) : St := ops.foldl (step locked) s
 
 /-- the agent as it is: the lock fact comes from the source -/
@@ -153,8 +161,7 @@ def Ref.init : Ref := ⟨none, 0, []⟩
 
 def refStep (r : Ref) : Op → Ref
   | .poll .update _ h tps =>
-    if tps.all (·.convertible) then { r with latest := some (h, (tps.filter (·.interpretable)).map (·.trig)) }
-    else r
+    { r with latest := some (h, (tps.filter (fun t => t.convertible && t.interpretable)).map (·.trig)) }
   | .register t => { r with n := r.n + 1, live := r.live ++ [(r.n, t)] }
   | .registerBad => { r with n := r.n + 1 }
   | .unregister h => { r with live := r.live.filter (fun p => p.1 != h) }
